@@ -155,6 +155,46 @@ class MiniEval:
     def ev_Constant(self, n):
         return n.value
 
+    def ev_Yield(self, n):
+        # `x = yield v`, `return (yield v)`: the expression's value is what the consumer sends in (None after a plain next())
+        if getattr(self, "yield_fn", None) is None:
+            raise Unsupported("yield outside a generator closure")
+        return self.yield_fn(self.ev(n.value) if n.value is not None else None)
+
+    def ev_YieldFrom(self, n):
+        # delegation: values pass out, sent values / thrown exceptions / close pass in, the expression's value is the inner
+        # generator's `return` value
+        if getattr(self, "yield_fn", None) is None:
+            raise Unsupported("yield from outside a generator closure")
+        inner = self.ev(n.value)
+        try:
+            it = iter(inner)
+        except TypeError as e:
+            raise ModelRaise("TypeError", f"yield from {norm(n.value)[:40]}: {e}")
+        try:
+            v = next(it)
+        except StopIteration as e:
+            return e.value
+        while True:
+            try:
+                sent = self.yield_fn(v)
+            except _GenClose:
+                if hasattr(it, "close"):
+                    it.close()
+                raise
+            except ModelRaise as thrown:
+                if not isinstance(it, LazyGen):
+                    raise
+                try:
+                    v = it.throw(thrown)
+                except StopIteration as e:
+                    return e.value
+                continue
+            try:
+                v = it.send(sent) if sent is not None and hasattr(it, "send") else next(it)
+            except StopIteration as e:
+                return e.value
+
     def ev_Name(self, n):
         if n.id in self.env:
             return self.env[n.id]
@@ -170,6 +210,14 @@ class MiniEval:
             return obj.raised_as
         if isinstance(obj, type) and n.attr in ("__name__", "__qualname__"):
             return obj.__name__
+        if isinstance(obj, LazyGen) and n.attr in ("send", "throw", "close", "__next__", "__iter__"):
+            return getattr(obj, n.attr)  # the generator protocol
+        if isinstance(obj, ModelRaise) and n.attr == "value" and exception_matches(obj.raised_as, "StopIteration"):
+            return getattr(obj, "value", None)  # StopIteration.value: the `return` value of the exhausted generator
+        if hasattr(type(obj), "_cg_class_attr") and n.attr not in ("__name__", "__qualname__"):
+            return obj._cg_class_attr(n.attr)  # `Circuit._helper`: class-level access to the repository's own class
+        if isinstance(obj, type) and issubclass(obj, Model) and getattr(obj, "_pkg_fallback", None) is not None and (n.attr.startswith("_") or not hasattr(obj, n.attr)) and not n.attr.startswith("__"):
+            return obj._pkg_fallback.class_level_attr(obj, n.attr)
         if type(obj).__name__ == "SuperProxy":
             return type(obj).__getattr__(obj, n.attr)  # also for dunder names, which Python would find on the proxy itself
         if isinstance(obj, Model) and getattr(type(obj), "_allow_private", False):
@@ -199,6 +247,13 @@ class MiniEval:
             return getattr(obj, n.attr)
         if n.attr in getattr(type(obj), "_cg_user_methods", ()):
             return getattr(obj, n.attr)  # a method the evaluated code defines on its own subclass of dict / list / set
+        if isinstance(obj, type) and hasattr(obj, "_cg_user_methods") and (n.attr in obj._cg_user_methods or any(issubclass(obj, ty) and n.attr in names for ty, names in _SAFE_METHODS.items())):
+            return getattr(obj, n.attr)  # class-level access: a table / static or class method of such a class, `Ledger.fromkeys`
+        if isinstance(obj, super) and isinstance(obj.__self__, (dict, list, set, type)) and hasattr(obj.__thisclass__, "_cg_user_methods"):
+            try:
+                return getattr(obj, n.attr)  # super() inside a method of such a class
+            except AttributeError:
+                raise ModelRaise("AttributeError", f"'super' object has no attribute '{n.attr}'")
         for ty, names in _SAFE_METHODS.items():
             if isinstance(obj, ty) and n.attr in names:
                 return getattr(obj, n.attr)
@@ -210,7 +265,7 @@ class MiniEval:
             return getattr(obj, n.attr)  # class-level API of a model class (alternative constructors such as Lark.open)
         if obj is None:
             raise ModelRaise("AttributeError", f"'NoneType' object has no attribute '{n.attr}'")
-        if isinstance(obj, (dict, list, tuple, str, set, frozenset)) and n.attr in ("__getitem__", "__contains__", "__len__", "__eq__", "__ne__", "__iter__", "__le__", "__lt__", "__ge__", "__gt__", "__or__", "__and__", "__sub__") and hasattr(obj, n.attr):
+        if isinstance(obj, (dict, list, tuple, str, set, frozenset)) and n.attr in ("__getitem__", "__contains__", "__len__", "__eq__", "__ne__", "__iter__", "__le__", "__lt__", "__ge__", "__gt__", "__or__", "__and__", "__sub__", "__xor__", "__setitem__", "__delitem__", "__reversed__") and hasattr(obj, n.attr):
             return getattr(obj, n.attr)
         if obj in (dict, set, frozenset, str, list, tuple, int) and n.attr in ("fromkeys", "union", "intersection", "join", "maketrans", "from_bytes", "difference") and hasattr(obj, n.attr):
             return getattr(obj, n.attr)
@@ -276,6 +331,8 @@ class MiniEval:
             if isinstance(v, Model):
                 raise Unsupported(f"type() of a model object {type(v).__name__}")
             return type(v)
+        if isinstance(n.func, ast.Name) and n.func.id == "super" and not n.args and isinstance(self.env.get("__class__"), type):
+            return super(self.env["__class__"], self.env.get("__super_self__"))  # a container class built as a real class: CPython's super
         if isinstance(n.func, ast.Name) and n.func.id == "super" and not n.args and self.env.get("__class__") is not None:
             from .userclass import SuperProxy
 
@@ -302,10 +359,12 @@ class MiniEval:
             it = self.ev(n.args[0])
             try:
                 return next(it)
-            except StopIteration:
+            except StopIteration as e:
                 if len(n.args) == 2:
                     return self.ev(n.args[1])
-                raise ModelRaise("StopIteration", "next() on an exhausted iterator")
+                mr = ModelRaise("StopIteration", "next() on an exhausted iterator")
+                mr.value = e.value
+                raise mr
             except TypeError as e:
                 raise Unsupported(f"next() on a non-iterator: {e}")
         f = self.ev(n.func)
@@ -334,7 +393,11 @@ class MiniEval:
             raise ModelRaise("KeyError", str(e))
         except IndexError as e:
             raise ModelRaise("IndexError", str(e))
-        except (ValueError, ZeroDivisionError, StopIteration) as e:
+        except StopIteration as e:
+            mr = ModelRaise("StopIteration", str(e))
+            mr.value = e.value
+            raise mr
+        except (ValueError, ZeroDivisionError) as e:
             raise ModelRaise(type(e).__name__, str(e))
         except TypeError as e:
             if e.__traceback__ is not None and e.__traceback__.tb_next is None and str(getattr(f, "__module__", "")).startswith("cgstatic") and not hasattr(f, "_cg_fdef"):
@@ -722,13 +785,15 @@ class LazyGen:
         self._exc = None
         self._value = None
         self._thrown = None
+        self._sent = None
+        self._return = None
 
     def __iter__(self):
         return self
 
     def _target(self):
         try:
-            self._run_body(self._yield)
+            self._return = self._run_body(self._yield)
         except _GenClose:
             pass
         except BaseException as e:  # noqa: B902 - transported to the consumer
@@ -746,6 +811,15 @@ class LazyGen:
         if self._thrown is not None:
             e, self._thrown = self._thrown, None
             raise e  # generator.throw(): the exception appears at the suspended `yield`
+        sent, self._sent = self._sent, None
+        return sent  # the value of the `yield` expression: what generator.send() handed in, None after next()
+
+    def send(self, value):
+        """generator.send(value): resume the body, the suspended `yield` expression evaluates to `value`."""
+        if self._thread is None and value is not None and not self._finished:
+            raise TypeError("can't send non-None value to a just-started generator")
+        self._sent = value
+        return self.__next__()
 
     def throw(self, exc):
         """generator.throw(exc): resume the body with `exc` raised at the `yield` it is suspended in."""
@@ -759,7 +833,7 @@ class LazyGen:
             e, self._exc = self._exc, None
             raise e
         if self._finished:
-            raise StopIteration
+            raise StopIteration(self._return)
         return self._value
 
     def __next__(self):
@@ -777,7 +851,7 @@ class LazyGen:
             e, self._exc = self._exc, None
             raise e
         if self._finished:
-            raise StopIteration
+            raise StopIteration(self._return)  # the generator's `return` value travels in StopIteration.value
         return self._value
 
     def close(self):
@@ -877,13 +951,14 @@ class BlockInterp:
             sub.me.env[fdef.name] = closure
             if is_gen:
                 def run_body(yield_fn):
-                    sub.yield_fn = yield_fn
+                    sub.yield_fn = sub.me.yield_fn = yield_fn
                     r_ = sub.run(fdef.body)
                     for nm in getattr(sub, "outer_names", ()):
                         if nm in sub.me.env:
                             outer.me.env[nm] = sub.me.env[nm]
                     if isinstance(r_, tuple) and r_[0] == "raise":
                         raise ModelRaise(r_[1] or "Exception", "raised in generator")
+                    return r_[1] if isinstance(r_, tuple) and r_[0] == "return" else None
 
                 return LazyGen(run_body)
             r = sub.run(fdef.body)
@@ -1026,16 +1101,8 @@ class BlockInterp:
             if self.me.ev(st.test):
                 return self.run(st.body)
             return self.run(st.orelse)
-        if isinstance(st, ast.Expr) and isinstance(st.value, ast.YieldFrom):
-            if not hasattr(self, "yield_fn"):
-                raise Unsupported("yield from outside a generator closure")
-            for x in self.me.ev(st.value.value):
-                self.yield_fn(x)
-            return "next"
-        if isinstance(st, ast.Expr) and isinstance(st.value, ast.Yield):
-            if not hasattr(self, "yield_fn"):
-                raise Unsupported("yield outside a generator closure")
-            self.yield_fn(self.me.ev(st.value.value) if st.value.value is not None else None)
+        if isinstance(st, ast.Expr) and isinstance(st.value, (ast.Yield, ast.YieldFrom)):
+            self.me.ev(st.value)
             return "next"
         if isinstance(st, ast.Expr):
             if isinstance(st.value, ast.Constant):
@@ -1149,6 +1216,10 @@ class BlockInterp:
                         v = object
                     elif isinstance(st, ast.ImportFrom) and (st.module or "").startswith("circuitgraph") and nm in self.me.env:
                         v = self.me.env[nm]
+                    elif isinstance(st, ast.ImportFrom) and (st.module or "").split(".")[0] == "networkx" and al.name in _EXC_PARENTS:
+                        v = ExcType(al.name)  # an exception class of the library, known by name
+                    elif isinstance(st, ast.ImportFrom) and st.module == "networkx" and "nx" in self.me.env and not al.name.startswith("_") and hasattr(self.me.env["nx"], al.name):
+                        v = getattr(self.me.env["nx"], al.name)
                     else:
                         raise Unsupported(f"import of {key}")
                 if isinstance(v, ModelRaise):
